@@ -251,6 +251,13 @@ func (d *ledgerDriver) exec(e BEvent, tw *TraceWriter) {
 		args := map[string]interface{}{}
 		var err error
 		panicked := ""
+		// a panic inside a transaction-like entry point aborts the whole transaction on a real chain
+		// (baseapp recovers it and discards the branch): the event runs on a branch that is written back
+		// unless it panicked. An entry point that merely returns an error gets NO rollback here - the
+		// keeper's own atomicity is what C09 examines. A panic in EndBlock is a halt: nothing to discard.
+		outer := d.ctx
+		cc, write := outer.CacheContext()
+		d.ctx = cc
 		func() {
 			defer func() {
 				if r := recover(); r != nil {
@@ -259,6 +266,10 @@ func (d *ledgerDriver) exec(e BEvent, tw *TraceWriter) {
 			}()
 			err = d.call(e, args)
 		}()
+		if panicked == "" || e.Ev == "EndBlock" {
+			write()
+		}
+		d.ctx = outer.WithBlockHeader(d.ctx.BlockHeader()) // EndBlock advances the header on the branch
 		ev := map[string]interface{}{"ev": e.Ev, "a": args, "ok": err == nil && panicked == "", "panic": panicked != "", "st": d.project()}
 		if err != nil {
 			ev["err"] = err.Error()
